@@ -73,7 +73,20 @@ class Mat:
             raise CERaise("IndexError", f"index {i} out of bounds for axis of size {n}")
         return [i % n]
 
+    @staticmethod
+    def _fancy(ix):
+        """list of ints for a list / 1-D Mat index, else None"""
+        if isinstance(ix, Mat) and ix.ndim == 1:
+            return list(ix.d)
+        if isinstance(ix, list) and all(isinstance(x, int) for x in ix):
+            return list(ix)
+        return None
+
     def get(self, idx):
+        if isinstance(idx, tuple) and idx and idx[0] == "ix":
+            return Mat([[self.d[r][c] for c in idx[2]] for r in idx[1]], 2)
+        if self.ndim == 2 and isinstance(idx, tuple) and len(idx) == 2 and Mat._fancy(idx[0]) is not None and Mat._fancy(idx[1]) is not None:
+            return Mat([self.d[r][c] for r, c in zip(Mat._fancy(idx[0]), Mat._fancy(idx[1]))], 1)
         if self.ndim == 1:
             if isinstance(idx, slice):
                 return Mat(self.d[idx], 1)
@@ -100,6 +113,15 @@ class Mat:
         return RowView(self, rs[0])
 
     def set(self, idx, v):
+        if isinstance(idx, tuple) and idx and idx[0] == "ix":
+            for a, r in enumerate(idx[1]):
+                for b, c in enumerate(idx[2]):
+                    self.d[r][c] = _scalar(v.d[a][b] if isinstance(v, Mat) else v)
+            return
+        if self.ndim == 2 and isinstance(idx, tuple) and len(idx) == 2 and Mat._fancy(idx[0]) is not None and Mat._fancy(idx[1]) is not None:
+            for k, (r, c) in enumerate(zip(Mat._fancy(idx[0]), Mat._fancy(idx[1]))):
+                self.d[r][c] = _scalar(v.d[k] if isinstance(v, Mat) else v)
+            return
         if self.ndim == 1:
             if isinstance(idx, slice):
                 raise Unsupported("slice store into vector")
@@ -315,7 +337,16 @@ class CE:
         elif t is ast.AugAssign:
             cur = self.ev(_load(st.target), env, f)
             rhs = self.ev(st.value, env, f)
-            self.assign(st.target, self.binop(st.op, cur, rhs), env, f)
+            new = self.binop(st.op, cur, rhs)
+            if isinstance(cur, Mat) and isinstance(new, Mat) and not isinstance(st.target, ast.Subscript) and new.shape == cur.shape:
+                # numpy's augmented operators work IN PLACE: every alias of the array sees the change
+                if cur.ndim == 1:
+                    cur.d[:] = new.d
+                else:
+                    for r, nr in zip(cur.d, new.d):
+                        r[:] = nr
+                return
+            self.assign(st.target, new, env, f)
         elif t is ast.If:
             self.block(st.body if self.truth(self.ev(st.test, env, f)) else st.orelse, env, f)
         elif t is ast.For:
@@ -656,6 +687,8 @@ class CE:
                 return ("matmethod", o, attr)
             if attr == "dtype":
                 return ExtName("numpy.int8")
+        if isinstance(o, RowView):
+            return self.getattr(Mat(list(o.row()), 1), attr, e, f)
         if isinstance(o, Recorder):
             if attr == "num_qubits":
                 return o.width
@@ -848,6 +881,15 @@ class CE:
             return isinstance(a, Mat) and isinstance(b, Mat) and a.d == b.d
         if name in ("int8", "int64", "int32", "bool_"):
             return int(args[0])
+        if name in ("flatnonzero",):
+            a = args[0]
+            vals = a.flat() if isinstance(a, Mat) else list(self.iterate(a))
+            return Mat([i for i, x in enumerate(vals) if x], 1)
+        if name == "ix_":
+            return ("ix", [int(x) for x in self.iterate(args[0])], [int(x) for x in self.iterate(args[1])])
+        if name == "count_nonzero":
+            a = args[0]
+            return sum(1 for x in (a.flat() if isinstance(a, Mat) else self.iterate(a)) if x)
         if name == "outer":
             a, b = args
             av = a.flat() if isinstance(a, Mat) else list(self.iterate(a))
